@@ -37,6 +37,9 @@ const tunPkg = "internal/protocol/session/tunnel"
 
 func runC02(r *Report) {
 	// delegating Read/Write wrappers on the server data path are transparent (R-C02-1)
+	for _, f := range r.P.FuncsIn("internal/protocol/session/tunnel") {
+		checkSyncPoolOwnership(r, "R-C02-1", f)
+	}
 	checkDelegatingWrappers(r, "R-C02-1", "internal/protocol/session/tunnel", "internal/protocol/adapter", "internal/stream", "internal/protocol/session")
 	// ---- R-C02-1 copy loop ---------------------------------------------------
 	cwc := r.need("R-C02-1", tunPkg, "Bridge.CopyWithControl")
